@@ -4,6 +4,7 @@ import (
 	"fmt"
 	"go/types"
 	"os"
+	"runtime"
 	"strings"
 
 	"golang.org/x/tools/go/packages"
@@ -68,6 +69,18 @@ func Load(dir string, roots []string, overlay map[string][]byte, tags string) (*
 		visit(p.Types)
 	}
 	prog.Build()
+	// syntax trees and type-checker side tables are no longer needed: a smaller live
+	// heap makes every garbage collection during exploration cheaper
+	for _, p := range pkgs {
+		p.Syntax, p.TypesInfo = nil, nil
+	}
+	l.Roots = nil
+	runtime.GC()
+	if initProf {
+		var ms runtime.MemStats
+		runtime.ReadMemStats(&ms)
+		fmt.Fprintf(os.Stderr, "[initprof] live heap after load: %d MB\n", ms.HeapAlloc>>20)
+	}
 	return l, nil
 }
 
